@@ -36,8 +36,11 @@ def sha(p):
     with open(p, 'rb') as f: return hashlib.sha256(f.read()).hexdigest()
 if mode == 'lists':
     for c in arg:
-        A = [[qgen.cell_to_py(x) for x in r] for r in c['A']]
-        B = None if c.get('B') is None else [[qgen.cell_to_py(x) for x in r] for r in c['B']]
+        if c.get('raw'):
+            A = json.loads(json.dumps(c['A'])); B = None if c.get('B') is None else json.loads(json.dumps(c['B']))    # cells may be lists / dicts: mutable values
+        else:
+            A = [[qgen.cell_to_py(x) for x in r] for r in c['A']]
+            B = None if c.get('B') is None else [[qgen.cell_to_py(x) for x in r] for r in c['B']]
         snapA = (id(A), [id(r) for r in A], json.dumps(A)); snapB = None if B is None else (id(B), [id(r) for r in B], json.dumps(B))
         res = []; err = None
         try:
@@ -166,6 +169,16 @@ def gen_cases(seed, n):
     cases += corr_C05.gen_cases(rnd, n)
     for c in cases:
         c['py'] = qgen.render_query(c['q'], 'py')
+    # mutable VALUES inside the records (list- and dict-valued cells, as JSON or dataframe sources have them): whatever a query does
+    # with them — aggregate, accumulate, compare, emit — the caller's nested objects must come out unchanged
+    NA = [['apple', ['red'], 3, {'k': 1}], ['apple', ['green', 'sweet'], 5, {'k': 2}], ['pear', ['sour'], 1, {'k': 3}], ['apple', [], 2, {}]]
+    NB = [['apple', ['b1']], ['apple', ['b2', 'b3']], ['fig', ['b4']]]
+    for text, use_b in [('select a1, SUM(a2) group by a1', False), ('select SUM(a2)', False), ('select a1, MAX(a2), MIN(a2) group by a1', False), ('select a1, ARRAY_AGG(a2) group by a1', False),
+                        ('select a1, ANY_VALUE(a2), COUNT(a4) group by a1', False), ('select a1, MEDIAN(a2) group by a1', False), ('select a1, AVG(a3), SUM(a3) group by a1', False),
+                        ('select a2, a4', False), ('select distinct a1, a3', False), ('select * order by a2', False), ('select a1, a2 + ["x"]', False), ('update set a3 = a3 + 1', False),
+                        ('update set a2 = a2 + ["x"] where a1 == "apple"', False), ('select a1, SUM(b2) join b on a1 == b1 group by a1', True), ('select a1, b2 left join b on a1 == b1', True),
+                        ('select a1, UNNEST(a2)', False), ('select top 2 a1, a2 order by a3 desc', False), ('select a1, ARRAY_AGG(b2), MAX(b2) join b on a1 == b1 group by a1', True)]:
+        cases.append({'q': {'items': ['star'], 'raw_text': text}, 'A': NA, 'B': NB if use_b else None, 'py': text, 'raw': True})
     return cases
 
 
